@@ -44,9 +44,13 @@ pub fn profile_cfg(profile: &str, content: &mut Rng) -> RunCfg {
     ) {
         c.f_yield = *content.pick(&[0u32, 0, 0, 100, 400]);
         c.f_multi = *content.pick(&[0u32, 0, 150, 300]);
+        if c.f_multi > 0 {
+            c.f_timer_late = *content.pick(&[0u32, 300, 600]);
+        }
     }
     c.pay_placeholder = content.chance(2, 3);
     c.big_messages = content.chance(1, 8);
+    c.sync_warnings = content.chance(1, 6);
     c.id_style = *content.pick(&[0u8, 0, 0, 1, 2, 3]);
     if matches!(profile, "inputs" | "wire" | "faults") {
         c.f_notify_drop = 250;
@@ -262,7 +266,11 @@ pub fn profile_cfg(profile: &str, content: &mut Rng) -> RunCfg {
             c.f_nontrampoline = 120;
             c.mpp_timeout = 600;
             c.max_ops = 160;
-            c.log = false;
+            // one run in three logs at trace level, half of those against a
+            // node that drains the plugin's output slowly: hundreds of log
+            // entries then queue up behind the writer
+            c.log = content.chance(1, 3);
+            c.backpressure = c.log && content.chance(1, 2);
             c.f_yield = 0;
         }
         "sweepbase" => {
@@ -981,7 +989,24 @@ impl RandomSched {
                     }
             )
         };
-        if c.f_multi > 0 && batchable(&op) && self.rng.permille(c.f_multi) {
+        // Time running up to a deadline and something else arriving in that
+        // very instant.
+        if c.f_multi > 0 && matches!(op, Op::Time { .. }) && self.rng.permille(c.f_multi) {
+            self.rng.shuffle(&mut cands);
+            let mut ops = vec![op.clone()];
+            for (o, _) in cands.iter() {
+                if ops.len() >= 3 {
+                    break;
+                }
+                let dup = ops.iter().any(|p| std::mem::discriminant(p) == std::mem::discriminant(o));
+                if batchable(o) && !dup {
+                    ops.push(o.clone());
+                }
+            }
+            if ops.len() > 1 {
+                op = Op::Multi { ops };
+            }
+        } else if c.f_multi > 0 && batchable(&op) && self.rng.permille(c.f_multi) {
             let key = |o: &Op| -> (u8, u8, u8) {
                 match o {
                     Op::Apply { rpc, .. } => (1, rpc.method as u8, rpc.hash),
